@@ -1,0 +1,101 @@
+//go:build verif
+
+package seq
+
+// Contracts for package seq, checked by /verif/govc.  Comment-only file.
+
+//@ import "github.com/csgura/fp/internal/veriflaws"
+//
+//@ func Fold(s, zero, f) result
+//@   prop C11 C12 C04
+//@   ensures Eq(result, veriflaws.RecFoldL(s, len(s), zero, f))
+//@   ensures Unchanged()
+//@   loop 0 invariant 0 <= idx_ && idx_ < len(s) && Eq(sum, veriflaws.RecFoldL(s, idx_, zero, f))
+//@   loop 0 decreases len(s) - idx_
+//
+//@ func Reduce(r, m) result
+//@   prop C11 C04
+//@   ensures Eq(result, veriflaws.RecFoldL(r, len(r), m.Empty(), m.Combine))
+//@   ensures Unchanged()
+//@   loop 0 invariant 0 <= i && i < len(r) && Eq(reduce, veriflaws.RecFoldL(r, i, m.Empty(), m.Combine))
+//@   loop 0 decreases len(r) - i
+//
+//@ func Map(opt, fn) result
+//@   prop C04 C12
+//@   ensures len(result) == len(opt)
+//@   ensures forall i int :: 0 <= i && i < len(opt) ==> Eq(result[i], fn(opt[i]))
+//@   ensures Fresh(result) && Unchanged()
+//@   loop 0 invariant 0 <= i && i < len(opt) && len(ret) == len(opt) && Fresh(ret)
+//@   loop 0 invariant forall j int :: 0 <= j && j < i ==> Eq(ret[j], fn(opt[j]))
+//@   loop 0 decreases len(opt) - i
+//
+//@ func FlatMap(opt, fn) result
+//@   prop C04
+//@   ensures Fresh(result) && Unchanged()
+//@   loop 0 invariant 0 <= idx_ && idx_ < len(opt) && Fresh(ret)
+//@   loop 0 decreases len(opt) - idx_
+//
+//@ func Zip(s1, s2) result
+//@   prop C04 C12 C14
+//@   ensures len(s1) <= len(s2) ==> len(result) == len(s1)
+//@   ensures len(s2) <= len(s1) ==> len(result) == len(s2)
+//@   ensures forall i int :: 0 <= i && i < len(result) ==> Eq(result[i], fp.Tuple2[A, B]{I1: s1[i], I2: s2[i]})
+//@   ensures Fresh(result) && Unchanged()
+//@   loop 0 invariant 0 <= i && i < minSize && len(ret) == minSize && minSize <= len(s1) && minSize <= len(s2) && Fresh(ret)
+//@   loop 0 invariant forall j int :: 0 <= j && j < i ==> Eq(ret[j], fp.Tuple2[A, B]{I1: s1[j], I2: s2[j]})
+//@   loop 0 decreases minSize - i
+//
+//@ func ZipWithIndex(s1) result
+//@   prop C04 C12
+//@   ensures len(result) == len(s1)
+//@   ensures forall i int :: 0 <= i && i < len(s1) ==> Eq(result[i], fp.Tuple2[int, A]{I1: i, I2: s1[i]})
+//@   ensures Fresh(result) && Unchanged()
+//@   loop 0 invariant 0 <= i && i < len(s1) && len(ret) == len(s1) && Fresh(ret)
+//@   loop 0 invariant forall j int :: 0 <= j && j < i ==> Eq(ret[j], fp.Tuple2[int, A]{I1: j, I2: s1[j]})
+//@   loop 0 decreases len(s1) - i
+//
+//@ lemma foldMap2[A, M any](a0, a1 A, m fp.Monoid[M], f func(A) M)
+//@   prop C11
+//@   option unroll
+//@   ensures EqT(FoldMap(fp.Seq[A]{a0, a1}, m, f), m.Combine(m.Combine(m.Empty(), f(a0)), f(a1)))
+//@   ensures EqT(Reduce(fp.Seq[M]{f(a0), f(a1)}, m), m.Combine(m.Combine(m.Empty(), f(a0)), f(a1)))
+//
+//@ func FoldTry(s, zero, f) result
+//@   prop C02 C04
+//@   ensures Unchanged()
+//@   loop 0 invariant 0 <= idx_ && idx_ < len(s)
+//@   loop 0 decreases len(s) - idx_
+//
+//@ lemma foldTry3[A, B any](a0, a1, a2 A, zero B, f func(B, A) fp.Try[B])
+//@   prop C02
+//@   option unroll
+//@   ensures f(zero, a0).IsFailure() ==> EqT(FoldTry(fp.Seq[A]{a0, a1, a2}, zero, f), f(zero, a0))
+//@   ensures f(zero, a0).IsSuccess() && f(f(zero, a0).Get(), a1).IsFailure() ==> Eq(FoldTry(fp.Seq[A]{a0, a1, a2}, zero, f), f(f(zero, a0).Get(), a1))
+//@   ensures f(zero, a0).IsSuccess() && f(f(zero, a0).Get(), a1).IsSuccess() ==> Eq(FoldTry(fp.Seq[A]{a0, a1, a2}, zero, f), f(f(f(zero, a0).Get(), a1).Get(), a2))
+//@   ensures Eq(FoldTry(fp.Seq[A]{}, zero, f), fp.Success(zero))
+//
+//@ lemma foldOption3[A, B any](a0, a1, a2 A, zero B, f func(B, A) fp.Option[B])
+//@   prop C02
+//@   option unroll
+//@   ensures !f(zero, a0).IsDefined() ==> EqT(FoldOption(fp.Seq[A]{a0, a1, a2}, zero, f), f(zero, a0))
+//@   ensures f(zero, a0).IsDefined() && f(f(zero, a0).Get(), a1).IsDefined() ==> Eq(FoldOption(fp.Seq[A]{a0, a1, a2}, zero, f), f(f(f(zero, a0).Get(), a1).Get(), a2))
+//
+//@ func Scan(s, zero, f) result
+//@   prop C04 C12
+//@   ensures len(result) == len(s)+1
+//@   ensures Fresh(result) && Unchanged()
+//@   ensures forall k int :: 0 <= k && k <= len(s) ==> Eq(result[k], veriflaws.RecFoldL(s, k, zero, f))
+//@   loop 0 invariant 0 <= i && i < len(s) && len(ret) == len(s)+1 && Fresh(ret) && Eq(sum, veriflaws.RecFoldL(s, i, zero, f))
+//@   loop 0 invariant forall k int :: 0 <= k && k <= i ==> Eq(ret[k], veriflaws.RecFoldL(s, k, zero, f))
+//@   loop 0 decreases len(s) - i
+//
+//@ func Partition(r, p) (left, right)
+//@   prop C04 C12
+//@   ensures len(left) + len(right) == len(r)
+//@   ensures forall k int :: 0 <= k && k < len(left) ==> p(left[k])
+//@   ensures forall k int :: 0 <= k && k < len(right) ==> !p(right[k])
+//@   ensures Unchanged()
+//@   loop 0 invariant 0 <= idx_ && idx_ < len(r) && len(left)+len(right) == idx_ && Fresh(left) && Fresh(right) && !SameArray(left, right)
+//@   loop 0 invariant forall k int :: 0 <= k && k < len(left) ==> p(left[k])
+//@   loop 0 invariant forall k int :: 0 <= k && k < len(right) ==> !p(right[k])
+//@   loop 0 decreases len(r) - idx_
